@@ -1318,6 +1318,10 @@ namespace awkward {
       return rpad_axis0(target, false);
     }
     else if (posaxis == depth + 1) {
+      if (starts_.length() == 0) {
+        // no lists to pad (awkward_ListArray_min_range reads the first list)
+        return shallow_copy();
+      }
       int64_t min = target;
       struct Error err1 = kernel::ListArray_min_range<T>(
         kernel::lib::cpu,   // DERIVE
